@@ -7,6 +7,7 @@ CONSTANTS
   Persistent = TRUE
   StartupScrub = TRUE
   EraseOnLookup = FALSE
+  CleanFailedWrite = TRUE
   ListRaw = FALSE
 INVARIANTS Reach_ReadAtDeadline
 VIEW View
